@@ -15,7 +15,7 @@ from ..program import AnalysisError, ClassInfo, FunctionInfo, fn_nodes, norm
 from ..cfg import cfg_of
 from ..fold import FuncVal, Inst, is_unknown
 from ..spec import tables as T
-from .common import can_reach_exit, const_value, is_const, names_in, succ_by_label
+from .common import resolve_all, can_reach_exit, const_value, is_const, names_in, succ_by_label
 from .c05 import _resolve_local
 
 BINDINGS = {"RSAKey": "rfc7518.rsa_key:RSABinding", "ECKey": "rfc7518.ec_key:ECBinding", "OKPKey": "rfc8037.okp_key:OKPBinding"}
@@ -667,6 +667,10 @@ def r11_12(ctx) -> None:
                     n += 1
                     a = eng.cg.arg_for_param(s, c, pn)
                     ok = a is not None and norm(a) == pn
+                    if not ok and a is not None:
+                        # the option in another representation (`to_bytes(password)`), None kept as None
+                        ts = resolve_all(eng, fn, a)
+                        ok = bool(ts) and all(t_ == pn or t_ == "None" or t_.startswith((f"to_bytes({pn}", f"to_str({pn}")) for t_ in ts) and any(pn in t_ for t_ in ts)
                     ctx.check(ok, "R11.12", fn, s.node, f"{fn.short} -> {c.short} :: {pn}", f"{fn.short} does not pass its `{pn}` argument on to {c.short} "
                               f"({'argument omitted' if a is None else 'passes ' + norm(a)})", f"{pn}={pn}", construct=f"{pn} forwarding {fn.short} -> {c.short}")
     ctx.count("R11.12", n, 26, "option forwarding call sites")
